@@ -108,15 +108,27 @@ func runRequestCase(kind string, timeoutMs int, noise int) (string, bool, string
 	var wg sync.WaitGroup
 	// noise callers: silent peers for them, longer timeouts; they must not influence the caller under test
 	noiseIDs := make([]uint64, noise)
+	noiseBad := make([]string, noise)
 	for k := 0; k < noise; k++ {
 		ctx := frugal.NewFContext("")
 		ctx.SetTimeout(timeout + 60*time.Millisecond)
 		noiseIDs[k], _ = frugal.VerifGetOpID(ctx)
 		wg.Add(1)
-		go func() {
+		go func(k int) {
 			defer wg.Done()
-			tr.Request(ctx, []byte{0, 0, 0, 1, 0})
-		}()
+			t, err := tr.Request(ctx, []byte{0, 0, 0, 1, 0})
+			if err == nil && t != nil {
+				// a caller may look at its response a little later: it must still be ITS response
+				time.Sleep(8 * time.Millisecond)
+				buf := make([]byte, 4096)
+				n, _ := t.Read(buf)
+				if id, _, ok := frameIdent(buf[:n]); !ok {
+					noiseBad[k] = "a concurrent request completed with a frame that does not parse"
+				} else if id != noiseIDs[k] {
+					noiseBad[k] = fmt.Sprintf("a concurrent request with op id %d holds the response of op id %d", noiseIDs[k], id)
+				}
+			}
+		}(k)
 	}
 	ctx := frugal.NewFContext("")
 	ctx.SetTimeout(timeout)
@@ -188,6 +200,11 @@ func runRequestCase(kind string, timeoutMs int, noise int) (string, bool, string
 	}
 	// the caller under test has returned: its registration must be gone once the noise callers return too
 	wg.Wait()
+	for _, b := range noiseBad {
+		if b != "" && why == "" {
+			why = b
+		}
+	}
 	time.Sleep(2 * time.Millisecond)
 	regLeft := frugal.VerifAdapterRegistrySize(tr)
 	if regLeft != 0 && why == "" {
